@@ -1,5 +1,5 @@
 #!/usr/bin/env python3
-"""mutant_iso.py <mutant dir> <pid> <name> : evaluates a seeded change WITHOUT touching /repo: a scratch worktree of
+"""mutant_iso.py <mutant dir> <pid> <name> [base commit] : evaluates a seeded change WITHOUT touching /repo: a scratch worktree of
 /repo's HEAD gets the patch, a scratch copy of /verif gets its harness path dependencies pointed at that worktree,
 and ./check <pid> --tier quick runs there.  Used to screen many changes in parallel; kept changes are confirmed
 against /repo itself with tools/mutant_eval.py."""
@@ -16,7 +16,8 @@ def main():
     base = Path('/tmp/mv_' + name)
     sh('git -C /repo worktree remove --force %s/repo' % base); shutil.rmtree(base, ignore_errors=True)
     base.mkdir(parents=True)
-    rc, out = sh('git -C /repo worktree add -q %s/repo HEAD' % base)
+    # optional 4th argument: the commit the change was written against (when a later fix: commit replaced the code it edits)
+    rc, out = sh('git -C /repo worktree add -q %s/repo %s' % (base, sys.argv[4] if len(sys.argv) > 4 else 'HEAD'))
     rc, out = sh('git apply %s' % (md / 'patch.diff'), cwd=base / 'repo')
     res = {'name': name, 'property': pid, 'applies': rc == 0}
     sh('rsync -a --exclude .git --exclude .work --exclude target --exclude replays --exclude seeded /verif/ %s/verif/' % base)
